@@ -143,7 +143,7 @@ defjvp(anp.sinh, lambda g, ans, x: g * anp.cosh(x))
 defjvp(anp.cosh, lambda g, ans, x: g * anp.sinh(x))
 defjvp(anp.tanh, lambda g, ans, x: g / anp.cosh(x) ** 2)
 defjvp(anp.arcsinh, lambda g, ans, x: g / anp.sqrt(x**2 + 1))
-defjvp(anp.arccosh, lambda g, ans, x: g / anp.sqrt(x**2 - 1))
+defjvp(anp.arccosh, lambda g, ans, x: g / (anp.sqrt(x - 1) * anp.sqrt(x + 1)))
 defjvp(anp.arctanh, lambda g, ans, x: g / (1 - x**2))
 defjvp(anp.square, lambda g, ans, x: g * 2 * x)
 defjvp(anp.sqrt, lambda g, ans, x: g * 0.5 * x**-0.5)
